@@ -328,8 +328,53 @@ TEXT['msgsock'] = ('recv_msg/send_msg at message level (callers of C10): recv_ms
                    'this abstraction is justified by C10.L1-L5 and T2')
 
 
+def event_class():
+    def set_(ex, a, k):
+        ex.abs_classes['Event'].set(ex, a[0], 'isset', z3.BoolVal(True))
+        return NONE
+
+    def wait(ex, a, k):
+        ac = ex.abs_classes['Event']
+        timeout = a[1] if len(a) > 1 else k.get('timeout', NONE)
+        if timeout is NONE:
+            hook = ex.ghost.get('__event_wait__')
+            if hook is not None:
+                hook(ex, a[0])
+            elif ex.ghost.get('on_block') == 'oblige':
+                ex.oblige('block', ac.get(ex, a[0], 'isset'), 'Event.wait() without timeout returns only if the event is (going to be) set',
+                          ex.ghost.get('__cur_node__'), key=('event-wait',))
+        return VBool(ac.get(ex, a[0], 'isset'))
+
+    def is_set(ex, a, k):
+        return VBool(ex.abs_classes['Event'].get(ex, a[0], 'isset'))
+    return AbsClass('Event', fields={'isset': smt.Bool}, methods={'set': set_, 'wait': wait, 'is_set': is_set},
+                    text='threading.Event: wait() returns once set() has been called; wait(t) returns after at most t')
+
+
+def new_event(ex, a=None, k=None):
+    n = ex.fresh_ctr.get('#event', 0)
+    ex.fresh_ctr['#event'] = n + 1
+    e = VAbs('Event', Val.v_str(z3.IntVal(smt.str_code(f'<event#{n}>'))))
+    ex.abs_classes['Event'].set(ex, e, 'isset', z3.BoolVal(False))
+    return e
+
+
+def new_thread(ex, a=None, k=None):
+    """threading.Thread(target=..., ...): a not-yet-started thread object (T4)"""
+    n = ex.fresh_ctr.get('#thread', 0)
+    ex.fresh_ctr['#thread'] = n + 1
+    t = VAbs('Proc', Val.v_str(z3.IntVal(smt.str_code(f'<thread#{n}>'))))
+    if 'Proc' in ex.abs_classes:
+        ex.abs_classes['Proc'].set(ex, t, 'alive', ex.fresh(f'thread{n}_alive', smt.Bool))
+    ex.ghost.setdefault('__threads__', []).append((t, (k or {}).get('target')))
+    return t
+
+
 def install(ex):
     extlib.install_common(ex)
+    ex.abs_classes['Event'] = event_class()
+    ex.ext_models['threading.Event'] = new_event
+    ex.ext_models['threading.Thread'] = new_thread
     ex.abs_classes['Conn'] = chan_class('Conn')
     ex.abs_classes['Queue'] = chan_class('Queue')
     ex.abs_classes['ODict'] = odict_class()
